@@ -613,6 +613,8 @@ class TD:
     def __add__(self, o):
         ou = td_us(o)
         if ou is None:
+            if _isinstance(o, _dt.datetime):
+                return DT.of_real(o) + self
             return NotImplemented
         return TD._from_us(self.us + ou)
     __radd__ = __add__
@@ -626,6 +628,8 @@ class TD:
     def __rsub__(self, o):
         ou = td_us(o)
         if ou is None:
+            if _isinstance(o, _dt.datetime):
+                return DT.of_real(o) + (-self)
             return NotImplemented
         return TD._from_us(ou - self.us)
 
